@@ -250,7 +250,7 @@ impl FmtAttribute {
                     .args
                     .iter()
                     .nth(i)
-                    .and_then(|a| a.expr.ident().filter(|_| a.alias.is_none()))?
+                    .and_then(|a| a.expr.ident())?
                     .to_string(),
             };
 
@@ -302,7 +302,7 @@ impl FmtAttribute {
                     .args
                     .iter()
                     .nth(*i)
-                    .and_then(|a| a.expr.ident().filter(|_| a.alias.is_none()))
+                    .and_then(|a| a.expr.ident())
                     .map(ToString::to_string),
             }
             .as_deref()
